@@ -27,6 +27,9 @@ func TestMain(m *testing.M) { kit.Main(m, "C10") }
 //
 // Event: client-close | server-close (TLS close) | server-reset (TCP RST) |
 // client-write-fail (writes toward the client start failing) |
+// client-ack-write-fail (the client's receive path stalls and then dies exactly
+// while the relay returns window credit for DATA the client is uploading, and
+// the server has a frame for the client at that moment) |
 // client-proto-error | server-proto-error (Variant says which malformed frame) |
 // closing (the proxy's closing channel is closed).
 //
@@ -44,7 +47,7 @@ var collect = os.Getenv("C10_COLLECT") != ""
 
 var (
 	states   = []string{"idle", "mid", "blocked-c2s", "blocked-s2c", "backedup-c2s", "backedup-s2c"}
-	events   = []string{"client-close", "server-close", "server-reset", "client-write-fail", "client-proto-error", "server-proto-error", "closing"}
+	events   = []string{"client-close", "server-close", "server-reset", "client-write-fail", "client-ack-write-fail", "client-proto-error", "server-proto-error", "closing"}
 	variants = []string{"continuation-without-headers", "bad-padding", "settings-bad-length"}
 
 	h2RE = regexp.MustCompile(`github\.com/google/martian/v3/h2\.`)
@@ -54,6 +57,9 @@ var (
 // malformed frame from the side whose frames the relay has stopped reading
 // (its reader is parked on the full output channel) never reaches it.
 func valid(c Case) bool {
+	if c.Event == "client-ack-write-fail" && c.State != "mid" && c.State != "blocked-s2c" {
+		return false // needs a stream the client may still upload on and a relay that is still reading
+	}
 	if c.State == "backedup-s2c" && c.Event == "server-proto-error" {
 		return false
 	}
@@ -224,6 +230,23 @@ func runOnce(c Case, bound time.Duration) (v kit.Verdict, slow bool) {
 		s.ServerTCP().Close()
 	case "client-write-fail":
 		s.Duplex.FailRelayWrites()
+	case "client-ack-write-fail":
+		// Writes toward the client stall. The client uploads one DATA frame: the
+		// relay's client-to-server side blocks in the write of the first
+		// WINDOW_UPDATE it owes the client. Meanwhile the server sends frames for the
+		// client (one written by the relay's reader itself, one through its writer
+		// goroutine). Then the stalled write fails, as do all later ones.
+		s.Duplex.StallRelayWrites()
+		cl.WriteData(1, kit.Bytes(7, 2000), -1, false)
+		kit.Eventually(bound, func() bool { return s.Duplex.Pending() == 0 })
+		sv.WritePing(false, [8]byte{9, 9, 9, 9, 9, 9, 9, 9})
+		if c.State != "blocked-s2c" {
+			sv.WriteHeaders(h2kit.HeadersSpec{Stream: 1, Pad: -1, Fields: []h2kit.Field{{N: ":status", V: "100"}}})
+		}
+		// give the relay the time to read them; this establishes the state, it is not
+		// part of the oracle (read too late, the case is merely a plain write failure)
+		time.Sleep(100 * time.Millisecond)
+		s.Duplex.FailRelayWrites()
 	case "client-proto-error":
 		malformed(cl, c.Variant)
 	case "server-proto-error":
@@ -233,7 +256,7 @@ func runOnce(c Case, bound time.Duration) (v kit.Verdict, slow bool) {
 	}
 	if c.Traffic {
 		switch c.Event {
-		case "client-close", "client-write-fail", "client-proto-error":
+		case "client-close", "client-write-fail", "client-ack-write-fail", "client-proto-error":
 			go keepSending(sv, c)
 		case "server-close", "server-reset", "server-proto-error":
 			go keepSending(cl, c)
